@@ -226,7 +226,7 @@ VERUS_UNITS = {
     },
     'syscalls': {
         'template': 'syscalls.rs.tpl',
-        'owners': [(r'(spawned_syscall|syscall_with_validation|named_syscall|named_syscall_direct|ims_default)$', ['C17']), (r'IdMappedSystems::default$', ['C17'])],
+        'owners': [(r'(spawned_syscall|syscall_with_validation|named_syscall|named_syscall_direct|ims_default|register_named_system_from)$', ['C17']), (r'IdMappedSystems::default$', ['C17'])],
         'negctl': [
             # S3: the SAME system value must be stored back
             ('final(world).spawned::<I, O>() =~= out.0.spawned::<I, O>().insert(e, SpawnedSystem { system: Some(out.1) }))', 'final(world).spawned::<I, O>() =~= out.0.spawned::<I, O>().insert(e, SpawnedSystem { system: Some(st->Some_0.system->Some_0) }))', 'spawned_syscall'),
@@ -385,7 +385,7 @@ PROPS = {
         note=ENVNOTE + '; Vec/VecDeque specs of vstd; core::mem::replace assume_specification; std retain semantics assumed (visit order, kept iff true)',
         explanation='queue FIFO proved (Verus, unbounded); tracker prepare/start/end proved (Verus, unbounded; start restated by Kani per length L<=3/5); lemma L1 lifts the start contract to per-system FIFO for unbounded histories; runner replay step/order proved at function level (Verus)'),
     'C13': dict(category='other', design_ref='DESIGN.md 5/C13',
-        text='Verus proves on verbatim text that SystemCommandStorage::take hands out exactly the stored callback and leaves None (so a second take while it is out yields None), and insert stores exactly its argument. Verus proves on the verbatim RawCallbackSystem / CallbackSystem::{initialize, run_with_cleanup, take_initialized} (generic; the `impl FnOnce(&mut World)` cleanup parameter replaced by an opaque stand-in, rule 19) the per-call cycle: a New system is initialised EXACTLY ONCE and then run, an Initialized one is run WITHOUT initialisation, and in both cases the slot afterwards holds Initialized(the same system value as the run left it) - so over ANY number of runs there is one initialisation and one instance; an Empty boxed slot runs only the cleanup. Kani restates this on the compiled code, with a stub System carrying its own run and initialize counters: over 2-3 consecutive runs `initialize` happens exactly once, every run is executed by the SAME instance (its private counter continues) and the system is stored back as Initialized after every run, for exclusive and non-exclusive systems. In syscommand_runner (Verus, verbatim) the callback is taken only on the run path (abort / postpone paths leave the storage alone) and, after the run and its garbage collection, the storage component of a target that still exists holds exactly THE callback that just ran, as the run left it (program-point obligation F); a target that lost its storage component is despawned, a target that is gone gets nothing back. The runner never returns while it holds a callback it took: every exit of the function - including exits a change adds - carries the ghost-state obligation G, so the system\'s persistent state cannot be dropped on an early return. Not covered: persistence across trees (opaque effects in between).',
+        text='A system command comes into being as ONE new entity carrying exactly the given callback (spawn_system_command_from / spawn_rc_system_command_from, Verus). Verus proves on verbatim text that SystemCommandStorage::take hands out exactly the stored callback and leaves None (so a second take while it is out yields None), and insert stores exactly its argument. Verus proves on the verbatim RawCallbackSystem / CallbackSystem::{initialize, run_with_cleanup, take_initialized} (generic; the `impl FnOnce(&mut World)` cleanup parameter replaced by an opaque stand-in, rule 19) the per-call cycle: a New system is initialised EXACTLY ONCE and then run, an Initialized one is run WITHOUT initialisation, and in both cases the slot afterwards holds Initialized(the same system value as the run left it) - so over ANY number of runs there is one initialisation and one instance; an Empty boxed slot runs only the cleanup. Kani restates this on the compiled code, with a stub System carrying its own run and initialize counters: over 2-3 consecutive runs `initialize` happens exactly once, every run is executed by the SAME instance (its private counter continues) and the system is stored back as Initialized after every run, for exclusive and non-exclusive systems. In syscommand_runner (Verus, verbatim) the callback is taken only on the run path (abort / postpone paths leave the storage alone) and, after the run and its garbage collection, the storage component of a target that still exists holds exactly THE callback that just ran, as the run left it (program-point obligation F); a target that lost its storage component is despawned, a target that is gone gets nothing back. The runner never returns while it holds a callback it took: every exit of the function - including exits a change adds - carries the ghost-state obligation G, so the system\'s persistent state cannot be dropped on an early return. Not covered: persistence across trees (opaque effects in between).',
         note=ENVNOTE + '; stub System = assumed contract of bevy System; Box<dyn FnMut> callbacks are opaque values in the Verus unit',
         explanation='storage take/insert and the runner\'s take-on-run-path / reinsert-the-same-callback obligations proved (Verus); one initialisation and instance identity over bounded run sequences (Kani)'),
     'C14': dict(category='other', design_ref='DESIGN.md 5/C14',
@@ -393,7 +393,7 @@ PROPS = {
         note=ENVNOTE + '; component/resource instantiated at a u32 newtype',
         explanation='accessor clauses complete@shape (Kani, loop-free, full value domain); dispatch of the trigger bounded (Kani)'),
     'C17': dict(category='other', design_ref='DESIGN.md 9.5',
-        text='Function-level contracts on the three entry points, proved by Verus on the verbatim bodies, generically in the input / output / function types (no bound): spawned_syscall - a missing target (entity gone or without SpawnedSystem component) or a system that is currently running (its slot holds None) gives Err, nothing runs and nothing changes; otherwise the stored system is taken out of its slot for the duration of the call, run exactly once with the given input, its output returned, and the SAME system value as the run left it is stored back on the same entity iff it still exists. syscall_with_validation - the system cached under the key (I, O, S) is taken out, run exactly once, its output returned and the same value stored back under the same key, with no validation and no second initialisation; without a cached system, validation runs first, ONE system is built, initialised once, run and stored. named_syscall / named_syscall_direct - the system stored under the name is taken out of its slot, run exactly once, its pending commands applied before returning, and the same value stored back under the name; an unknown name makes named_syscall build-initialise-run-store one system and named_syscall_direct return Err without running anything or touching the table; other names are untouched. That a run applies the commands it queued before returning is discharged on the real CallbackSystem::run_with_cleanup / run_initialized_system by Kani (K.callbacks.*: cleanup, then apply_deferred, on every run); spawned_syscall on missing / running targets is restated by Kani on the compiled code. Level other: the system bodies, Bevy\'s System::run (= run + apply_deferred) and the resource / component stores are uninterpreted effects with assumed contracts; persistence over SEQUENCES of calls follows from the per-call contracts only by the (unproved here) induction over the call history; the thin wrappers (syscall, WorldSyscallExt, the Commands extensions, prep_fncall) and register_named_system* are not under contract.',
+        text='Function-level contracts on the three entry points, proved by Verus on the verbatim bodies, generically in the input / output / function types (no bound): spawned_syscall - a missing target (entity gone or without SpawnedSystem component) or a system that is currently running (its slot holds None) gives Err, nothing runs and nothing changes; otherwise the stored system is taken out of its slot for the duration of the call, run exactly once with the given input, its output returned, and the SAME system value as the run left it is stored back on the same entity iff it still exists. syscall_with_validation - the system cached under the key (I, O, S) is taken out, run exactly once, its output returned and the same value stored back under the same key, with no validation and no second initialisation; without a cached system, validation runs first, ONE system is built, initialised once, run and stored. named_syscall / named_syscall_direct - the system stored under the name is taken out of its slot, run exactly once, its pending commands applied before returning, and the same value stored back under the name; an unknown name makes named_syscall build-initialise-run-store one system and named_syscall_direct return Err without running anything or touching the table; other names are untouched. That a run applies the commands it queued before returning is discharged on the real CallbackSystem::run_with_cleanup / run_initialized_system by Kani (K.callbacks.*: cleanup, then apply_deferred, on every run); spawned_syscall on missing / running targets is restated by Kani on the compiled code. Level other: the system bodies, Bevy\'s System::run (= run + apply_deferred) and the resource / component stores are uninterpreted effects with assumed contracts; persistence over SEQUENCES of calls follows from the per-call contracts only by the (unproved here) induction over the call history; register_named_system_from stores the initialised system under the name (Verus); the thin wrappers (syscall, WorldSyscallExt, the Commands extensions, prep_fncall) are not under contract.',
         note=ENVNOTE + '; fn-pointer parameter `validation` replaced by an opaque stand-in type (extraction rule 19); closures normalized by rules 20/21',
         explanation='take-out / run-once / store-back-the-same-value proved per call for all three families (Verus, generic); command application before return by Kani on the callback runners; call histories and wrappers not covered'),
     'C18': dict(category='other', design_ref='DESIGN.md 5/C18',
